@@ -274,8 +274,7 @@ def c10(res, tier, deadline):
     if tier != "quick":
         fl = ("n=1-2,k=2,d=2,shapes=RR,limit=12;n=1-3,k=1,d=2,shapes=R|V,limit=10;"
               "n=3,k=2,d=2,shapes=RR,limit=8;n=4,k=2,d=2,shapes=RR,limit=0;"
-              "n=1-3,k=3,d=2,shapes=RRR,limit=0;n=5,k=2,d=1,shapes=RR,limit=0;"
-              "n=4,k=3,d=1,shapes=RRR,limit=0")
+              "n=1-3,k=3,d=2,shapes=RRR,limit=0")
     for tag in ("prj", "prn", "prc"):
         runs.append(Run(tag, "flavour", fl, "C01,C03", extra="reupdate=1",
                         label="%s/plain/flavour" % tag))
